@@ -20,6 +20,8 @@ pub struct TableAut {
     pub matches: Vec<bool>,
     pub can: Vec<bool>,
     pub always: Vec<bool>,
+    /// the end-of-key hook: empty (no hook), or per state 0 (None) / the state it moves to
+    pub eof: Vec<usize>,
 }
 
 impl Automaton for TableAut {
@@ -38,6 +40,12 @@ impl Automaton for TableAut {
     }
     fn accept(&self, s: &usize, b: u8) -> usize {
         self.delta[*s - 1][self.cls[b as usize] - 1]
+    }
+    fn accept_eof(&self, s: &usize) -> Option<usize> {
+        match self.eof.get(*s - 1) {
+            Some(&t) if t != 0 => Some(t),
+            _ => None,
+        }
     }
 }
 
@@ -62,7 +70,8 @@ impl TableAut {
         json!({"ev": "AutDef", "a": id, "n": self.n, "start": self.start,
                "cls": self.cls, "delta": self.delta,
                "match": Self::set_of(&self.matches), "can": Self::set_of(&self.can),
-               "always": Self::set_of(&self.always)})
+               "always": Self::set_of(&self.always),
+               "eof": (0..self.n).map(|i| self.eof.get(i).cloned().unwrap_or(0)).collect::<Vec<usize>>()})
     }
     /// reach[s] = states reachable from s (including s)
     pub fn reach(&self) -> Vec<Vec<bool>> {
@@ -138,7 +147,7 @@ impl TableAut {
         if let Some(s) = sink {
             matches[s - 1] = r.gen_range(0, 4) == 0;
         }
-        let mut a = TableAut { n, start: 1, cls, delta, matches, can: vec![true; n], always: vec![false; n] };
+        let mut a = TableAut { n, start: 1, cls, delta, matches, can: vec![true; n], always: vec![false; n], eof: vec![] };
         a.exact_hints();
         a
     }
@@ -201,6 +210,7 @@ where
         matches: states.iter().map(|s| aut.is_match(s)).collect(),
         can: states.iter().map(|s| aut.can_match(s)).collect(),
         always: states.iter().map(|s| aut.will_always_match(s)).collect(),
+        eof: vec![],
     })
 }
 
